@@ -56,6 +56,8 @@ type Func struct {
 	litCount   int
 	locals     map[string]bool // names of receiver, parameters and locals (root functions only)
 	localTypes map[string][]types.Type
+	localObjs  map[string][]types.Object
+	extraGuard map[ast.Node]*Formula // per-node additional guards (e.g. `return cond` read as: return true under cond)
 }
 
 // loadProg loads every package of the module found under dir.
